@@ -35,7 +35,10 @@ RULE = ('molecules: exhaustive C/O (N for Benson/PPY) skeletons up to 3 '
         'two random atom orders) and, for a quarter of the molecules and '
         'all with ~ / $ / [H], an RDKit Mol object. Synthetic schemes also '
         'declare smarts_based_descriptors / smiles_based_descriptors from a '
-        'closed pattern table. ')
+        'closed pattern table. '
+        ' '
+        'Rounds 17-19: one scheme object decomposing texts and molecule'
+        ' objects for four threads at once.')
 ASSUMPTIONS = [
     'RDKit parsing, kekulisation, ring perception and stereo perception are '
     'input; molecules above the 10000-embedding cap are excluded',
